@@ -664,3 +664,52 @@ def rule_c11_pymodel(r):
                 r.ok(md.relpath, fname, "no uninitialised allocation, no state kept", fn.lineno)
     if n < 20:
         raise AnalysisError("python functions of the model files not found (%d)" % n)
+
+
+# --------------------------------------------------------------------------------------------- C07/C14: the amplitude is signed
+def sign_unit(unit, extra):
+    """Worker: in a model's Fq, the amplitude output is not obtained through sqrt/fabs (which would drop its sign)."""
+    from .. import cfront
+    from ..nf import c_callee, c_text, c_strip
+    from ..ckernel import kids, norm
+    out = []
+    f = unit.functions.get("Fq")
+    if f is None or unit.body(f) is None:
+        return out
+    params = [p["name"] for p in unit.params(f)]
+    if len(params) < 3:
+        return out
+    f1 = params[1]
+    ff, ll = unit.where(f)
+    n = 0
+    for x in cfront.walk(unit.body(f)):
+        if x.get("kind") == "BinaryOperator" and x.get("opcode") == "=":
+            lhs = norm(c_text(kids(x)[0]))
+            if lhs == "*" + f1:
+                n += 1
+                rhs = c_strip(kids(x)[1])
+                bad = rhs.get("kind") == "CallExpr" and c_callee(rhs) in ("sqrt", "fabs", "abs")
+                f2, l2 = unit.where(x)
+                out.append(("R-C14-sign", "violation" if bad else "ok", f2, "%s:Fq" % unit.name, "*%s = %s" % (f1, c_text(kids(x)[1])[:60]), l2,
+                            "the amplitude <F> is a signed quantity: taking it as %s(...) makes every mesh point contribute |F|, so "
+                            "<F>^2 (beta approximation) is overestimated wherever the amplitude changes sign over the mesh" % c_callee(rhs)
+                            if bad else "signed amplitude"))
+    if n == 0:
+        out.append(("R-C14-sign", "violation", ff, "%s:Fq" % unit.name, "store to *%s" % f1, ll, "Fq never writes its amplitude output"))
+    return out
+
+
+_sign_cache = None
+
+
+def make_sign_rule(rule_id_out):
+    def run(r):
+        global _sign_cache
+        if _sign_cache is None:
+            from .. import cfront
+            _sign_cache = cfront.map_units("sa.rules.extra3:sign_unit")
+        for unit, rows in sorted(_sign_cache.items()):
+            for row in rows:
+                _, status, f, fn, construct, line, detail = row
+                getattr(r, status)(f, fn, construct, line, detail)
+    return run
